@@ -10,7 +10,7 @@ from ..engine import Ctx, resolve_all
 from ..paths import EXC_LABELS, NORMAL_LABELS, Search
 from ..program import AnalysisError, FuncEnv, FuncUnit, dotted, unparse
 from ..report import Collector
-from .common import loop_region, path_text
+from .common import loop_region, path_text, awaited_in_frame
 
 GENERATION_ORDERED = {'networkx.topological_sort', 'networkx.topological_generations'}
 NOT_GENERATION_ORDERED = {'networkx.lexicographical_topological_sort', 'networkx.all_topological_sorts',
@@ -272,7 +272,7 @@ def rule_dispatch(ctx: Ctx, out: Collector) -> None:
             role = ctx.roles.body(ev)
             if role == 'executor':
                 have_executor = True
-                if not ev.info.get('awaited'):
+                if not awaited_in_frame(ctx, g, ev):
                     cons = ctx.construct(ev) + ' [executor future]'
                     if cons not in seen:
                         seen.add(cons)
